@@ -40,7 +40,7 @@ func sopts(hdrVersion int) *store.Options {
 		WithTimeFunc(func() time.Time { return fixedTime }).WithWriteTxHeaderVersion(hdrVersion).
 		WithFileSize(1 << 14).WithMaxTxEntries(8).WithMaxKeyLen(32).WithMaxValueLen(64).WithMaxConcurrency(2).WithMaxIOConcurrency(1).
 		WithMaxActiveTransactions(4).WithTxLogCacheSize(4).WithVLogCacheSize(0).WithWriteBufferSize(1024).
-		WithAHTOptions(store.DefaultAHTOptions().WithWriteBufferSize(1024)).
+		WithAHTOptions(store.DefaultAHTOptions().WithWriteBufferSize(1024).WithSyncThld(4)).WithSynced(false).
 		WithIndexOptions(store.DefaultIndexOptions().WithFlushBufferSize(1024).WithCacheSize(16).WithMaxNodeSize(512))
 }
 
